@@ -18,6 +18,7 @@ DEFAULT_OPTS = {
     'fold_unfaced': False,  # cash games: fold with nothing to call (warned)
     'probe': False,        # out-of-domain arguments become events if (and only if) the query accepts them
     'show_players': False,  # default-argument show/muck for an explicit player out of showdown order
+    'post_hand_show': False,  # the documented non-standard showdown: a still-active player tables his hand once no street is on
 }
 
 
@@ -169,6 +170,11 @@ def legal_menu(st, o=DEFAULT_OPTS):
                 add((('show_or_muck_hole_cards', t), 1))
         if st.can_show_or_muck_hole_cards(False):
             add((('show_or_muck_hole_cards', False), 1))
+    if o.get('post_hand_show') and st.street is None and st.operations:
+        for i in range(n):
+            if st.statuses[i] and st.hole_cards[i] and not all(st.hole_card_statuses[i]) and \
+                    _yes(st.can_show_or_muck_hole_cards, True, i):
+                add((('show_or_muck_hole_cards', True, i), 1))
     if st.can_kill_hand():
         add((('kill_hand',), 0))
         if o['players']:
